@@ -424,3 +424,508 @@ Section Facets.
     rewrite Hlook in Hl'. injection Hl' as <- <- <-. lia.
   Qed.
 End Facets.
+
+(* ---------------------------------------------------------------------- *)
+(* 5. Material cards: one sign per card                                    *)
+(* ---------------------------------------------------------------------- *)
+
+Lemma sign_check_some l b :
+  sign_check l (Some b) = Ok tt -> forall p, In p l -> negb (frac_negative (snd p)) = b.
+Proof.
+  induction l as [|[iso frac] l IH]; intros H p Hin; [destruct Hin|].
+  simpl in H. destruct (Bool.eqb b (negb (frac_negative frac))) eqn:E; [|discriminate].
+  apply eqb_prop in E. destruct Hin as [<-|Hin]; [symmetry; exact E|auto].
+Qed.
+
+Lemma sign_check_none l :
+  sign_check l None = Ok tt ->
+  forall p q, In p l -> In q l -> frac_negative (snd p) = frac_negative (snd q).
+Proof.
+  destruct l as [|[iso frac] l]; intros H p q Hp Hq; [destruct Hp|].
+  simpl in H. pose proof (sign_check_some l _ H) as Hall.
+  assert (Hone : forall x, In x ((iso, frac) :: l) -> negb (frac_negative (snd x)) = negb (frac_negative frac)).
+  { intros x [<-|Hx]; [reflexivity|auto]. }
+  apply Hone in Hp. apply Hone in Hq.
+  destruct (frac_negative (snd p)), (frac_negative (snd q)), (frac_negative frac); simpl in *; congruence.
+Qed.
+
+Lemma sign_check_err l a e : sign_check l a = Err e -> e = EMixedSigns.
+Proof.
+  revert a; induction l as [|[iso frac] l IH]; intros a H; [discriminate|].
+  simpl in H. destruct a as [b|]; [|eauto].
+  destruct (Bool.eqb b (negb (frac_negative frac))); [eauto|congruence].
+Qed.
+
+Lemma mixed_fractions_card_rejected toks l p q :
+  mat_pairs toks = Ok l -> In p l -> In q l ->
+  frac_negative (snd p) <> frac_negative (snd q) ->
+  material_check toks = Err EMixedSigns.
+Proof.
+  intros Hl Hp Hq Hne. unfold material_check. rewrite Hl. simpl.
+  destruct (sign_check l None) as [[]|e] eqn:E.
+  - exfalso. apply Hne. eapply sign_check_none; eauto.
+  - apply sign_check_err in E. subst; reflexivity.
+Qed.
+
+(* ---------------------------------------------------------------------- *)
+(* 6. --lattice arguments: exactly the well-formed ones are accepted       *)
+(* ---------------------------------------------------------------------- *)
+
+Definition is_some {A} (o : option A) : bool := match o with Some _ => true | None => false end.
+
+Definition range_wf (r : string) : bool :=
+  match split_on ":" r with
+  | [a; b] => is_some (py_int a) && is_some (py_int b)
+  | _ => false
+  end.
+
+Definition latopt_wf (o : string) : bool :=
+  match split_on "," o with
+  | head :: rs =>
+      (1 <=? List.length rs)%nat && (List.length rs <=? 3)%nat
+      && is_some (py_int head) && forallb range_wf rs
+  | [] => false
+  end.
+
+Lemma parse_ranges_exact l : is_ok (parse_ranges l) = forallb range_wf l.
+Proof.
+  induction l as [|r l IH]; [reflexivity|].
+  cbn [parse_ranges forallb]. unfold range_wf at 1.
+  destruct (split_on ":" r) as [|a [|b [|c t]]]; try reflexivity.
+  destruct (py_int a); [|reflexivity]. destruct (py_int b); [|reflexivity].
+  cbn [is_some andb]. rewrite <- IH. destruct (parse_ranges l); reflexivity.
+Qed.
+
+Lemma parse_ranges_length l b : parse_ranges l = Ok b -> List.length b = List.length l.
+Proof.
+  revert b; induction l as [|r l IH]; intros b H; [injection H as <-; reflexivity|].
+  simpl in H. destruct (split_on ":" r) as [|x [|y [|z t]]]; try discriminate.
+  destruct (py_int x); [|discriminate]. destruct (py_int y); [|discriminate].
+  apply bind_ok in H; destruct H as [t' [Ht H]]. injection H as <-. simpl. f_equal. auto.
+Qed.
+
+Lemma parse_lattice_acc_exact opts acc :
+  is_ok (parse_lattice_acc opts acc) = forallb latopt_wf opts.
+Proof.
+  revert acc; induction opts as [|o opts IH]; intros acc; [reflexivity|].
+  cbn [parse_lattice_acc forallb]. unfold latopt_wf at 1.
+  destruct (split_on "," o) as [|head rs]; [reflexivity|].
+  destruct (Nat.eqb_spec (List.length rs) 0) as [E0|E0].
+  { rewrite E0. reflexivity. }
+  destruct (Nat.ltb_spec 3 (List.length rs)) as [E3|E3].
+  { replace (List.length rs <=? 3)%nat with false by (symmetry; apply Nat.leb_gt; lia).
+    rewrite andb_false_r. reflexivity. }
+  replace (1 <=? List.length rs)%nat with true by (symmetry; apply Nat.leb_le; lia).
+  replace (List.length rs <=? 3)%nat with true by (symmetry; apply Nat.leb_le; lia).
+  destruct (py_int head); [|reflexivity]. cbn [is_some andb].
+  rewrite <- (parse_ranges_exact rs).
+  destruct (parse_ranges rs) as [b|e]; cbn [bind is_ok andb]; [apply IH|reflexivity].
+Qed.
+
+Lemma parse_lattice_exact opts : is_ok (parse_lattice opts) = forallb latopt_wf opts.
+Proof. apply parse_lattice_acc_exact. Qed.
+
+Lemma latopt_malformed_rejected opts o :
+  In o opts -> latopt_wf o = false -> is_ok (parse_lattice opts) = false.
+Proof.
+  intros Hin Hwf. rewrite parse_lattice_exact.
+  destruct (forallb latopt_wf opts) eqn:E; [|reflexivity].
+  rewrite forallb_forall in E. rewrite (E o Hin) in Hwf. discriminate.
+Qed.
+
+(* ---------------------------------------------------------------------- *)
+(* 7. Cell options: transformations with m != 1, lattices, FILL arrays      *)
+(* ---------------------------------------------------------------------- *)
+Section Cells.
+  Context {T : Type} (S : Scalar T).
+
+  Lemma span_app {A} (p : A -> bool) (ps rest : list A) :
+    forallb p ps = true -> match rest with [] => True | x :: _ => p x = false end ->
+    span p (ps ++ rest) = (ps, rest).
+  Proof.
+    intros Hps Hrest. induction ps as [|x ps IH]; simpl in *.
+    - destruct rest as [|y rest]; [reflexivity|]. simpl. rewrite Hrest. reflexivity.
+    - apply andb_true_iff in Hps as [Hx Hps]. rewrite Hx, (IH Hps). reflexivity.
+  Qed.
+
+  Definition stops (rest : list (tok (T:=T))) : Prop :=
+    match rest with [] => True | x :: _ => numeric_lead x = false end.
+
+  (* the transformation part of FILL / the parameters of TRCL, starred or not:
+     thirteen entries whose last one is not 1 *)
+  Lemma inline_m_rejected star trs (ps rest : list (tok (T:=T))) :
+    forallb numeric_lead ps = true -> forallb (fun p => float_lit (tsp p)) ps = true ->
+    stops rest -> List.length ps = 13%nat ->
+    seqb S (last (map tval ps) (s1 S)) (s1 S) = false ->
+    fill_params S star trs (ps ++ rest) = Err ETransformation.
+  Proof.
+    intros Hn Hf Hs Hl Hm. unfold fill_params.
+    rewrite (span_app _ ps rest Hn Hs). rewrite Hf. simpl negb. cbv iota.
+    rewrite Hl.
+    destruct ps as [|p1 [|p2 ps']]; [discriminate Hl|discriminate Hl|].
+    change (13 =? 3)%nat with false. change (13 =? 0)%nat with false. cbv iota.
+    assert (Hnorm : norm_tr_len S (map tval (p1 :: p2 :: ps')) = Err ETransformation).
+    { apply norm_tr_len_m_rejected; [rewrite map_length; exact Hl|exact Hm]. }
+    destruct star; rewrite Hnorm; reflexivity.
+  Qed.
+
+  Lemma trcl_m_rejected star trs (ps rest : list (tok (T:=T))) :
+    forallb numeric_lead ps = true -> forallb (fun p => float_lit (tsp p)) ps = true ->
+    stops rest -> List.length ps = 13%nat ->
+    seqb S (last (map tval ps) (s1 S)) (s1 S) = false ->
+    parse_trcl S star trs (ps ++ rest) = Err ETransformation.
+  Proof. apply inline_m_rejected. Qed.
+
+  Lemma fill_m_rejected star trs (u : tok (T:=T)) (ps rest : list (tok (T:=T))) :
+    has_colon u = false -> float_lit (tsp u) = true ->
+    forallb numeric_lead ps = true -> forallb (fun p => float_lit (tsp p)) ps = true ->
+    stops rest -> List.length ps = 13%nat ->
+    seqb S (last (map tval ps) (s1 S)) (s1 S) = false ->
+    parse_fill S star trs (u :: ps ++ rest) = Err ETransformation.
+  Proof.
+    intros Hc Hu Hn Hf Hs Hl Hm. unfold parse_fill. rewrite Hc, Hu.
+    rewrite (inline_m_rejected star trs ps rest Hn Hf Hs Hl Hm). reflexivity.
+  Qed.
+
+  (* the keyword loop: a TRCL / FILL keyword at the head of the options *)
+  Lemma kw_trcl_m_rejected f trs (e : tok (T:=T)) ps rest k :
+    prefix "imp" (tsp e) = false -> contains_sub "fill" (tsp e) = false ->
+    contains_sub "lat" (tsp e) = false -> contains_sub "trcl" (tsp e) = true ->
+    forallb numeric_lead ps = true -> forallb (fun p => float_lit (tsp p)) ps = true ->
+    stops rest -> List.length ps = 13%nat ->
+    seqb S (last (map tval ps) (s1 S)) (s1 S) = false ->
+    parse_kw S (Datatypes.S f) trs (e :: ps ++ rest) k = Err ETransformation.
+  Proof.
+    intros H1 H2 H3 H4 Hn Hf Hs Hl Hm. cbn [parse_kw]. cbv zeta. rewrite H1, H2, H3, H4.
+    rewrite (trcl_m_rejected _ trs ps rest Hn Hf Hs Hl Hm). reflexivity.
+  Qed.
+
+  Lemma kw_fill_m_rejected f trs (e u : tok (T:=T)) ps rest k :
+    prefix "imp" (tsp e) = false -> contains_sub "fill" (tsp e) = true ->
+    has_colon u = false -> float_lit (tsp u) = true ->
+    forallb numeric_lead ps = true -> forallb (fun p => float_lit (tsp p)) ps = true ->
+    stops rest -> List.length ps = 13%nat ->
+    seqb S (last (map tval ps) (s1 S)) (s1 S) = false ->
+    parse_kw S (Datatypes.S f) trs (e :: u :: ps ++ rest) k = Err ETransformation.
+  Proof.
+    intros H1 H2 Hc Hu Hn Hf Hs Hl Hm. cbn [parse_kw]. cbv zeta. rewrite H1, H2.
+    rewrite (fill_m_rejected _ trs u ps rest Hc Hu Hn Hf Hs Hl Hm). reflexivity.
+  Qed.
+
+  (* LAT with FILL=n and no --lattice option *)
+  Lemma lattice_no_opt_rejected (k : kws (T:=T)) fr z :
+    k_fill k = Some fr -> f_bounds fr = None -> k_lat k = Some z ->
+    to_fillid k None = Err EMissingLatticeOpt.
+  Proof. intros H1 H2 H3. unfold to_fillid. rewrite H1, H3, H2. reflexivity. Qed.
+
+  Lemma parse_cell_no_opt_rejected trs imps rank toks (k : kws (T:=T)) fr z :
+    parse_kw S (Datatypes.S (List.length toks)) trs toks kws0 = Ok k ->
+    k_fill k = Some fr -> f_bounds fr = None -> k_lat k = Some z ->
+    is_ok (parse_cell S trs imps rank None toks) = false.
+  Proof.
+    intros Hk H1 H2 H3. unfold parse_cell. rewrite Hk. simpl.
+    match goal with |- context [bind ?r _] => destruct r as [imp|e]; [|reflexivity] end.
+    simpl. rewrite (lattice_no_opt_rejected k fr z H1 H2 H3). reflexivity.
+  Qed.
+
+  (* FILL arrays *)
+  Lemma expand_ok_length (l : list (tok (T:=T))) e acc c vals c' :
+    expand l (Some e) acc c = XOk vals c' -> Z.of_nat (List.length vals) = e.
+  Proof.
+    assert (Hfin : forall acc c, xfinish (Some e) acc c = XOk vals c' ->
+                                 Z.of_nat (List.length vals) = e).
+    { intros a n. unfold xfinish.
+      destruct (Z.eqb_spec (Z.of_nat (List.length a)) e); [intros [= <- _]; assumption|discriminate]. }
+    revert acc c; induction l as [|t l IH]; intros acc c H; cbn [expand] in H; cbv zeta in H; [eauto|].
+    destruct (reached (Some e) acc); [eauto|].
+    destruct (last_char (strip_ws (tsp t))) as [ch|]; [|discriminate].
+    destruct (Ascii.eqb ch "r").
+    { destruct (reps (strip_ws (tsp t))); [|discriminate].
+      destruct (rev acc); [discriminate|eauto]. }
+    destruct (Ascii.eqb ch "j").
+    { destruct (reps (strip_ws (tsp t))); [|discriminate]. eauto. }
+    destruct (Ascii.eqb ch "i" || Ascii.eqb ch "m" || Ascii.eqb ch "g"); [discriminate|].
+    destruct (float_lit (strip_ws (tsp t))); [eauto|discriminate].
+  Qed.
+
+  Lemma fill_array_length_exact star trs first r1 (fr : fillres) rest b :
+    has_colon first = true -> parse_fill S star trs (first :: r1) = Ok (fr, rest) ->
+    f_bounds fr = Some b -> Z.of_nat (List.length (f_univs fr)) = bounds_size b.
+  Proof.
+    intros Hc H Hb. unfold parse_fill in H. rewrite Hc in H.
+    destruct (span has_colon r1) as [rs r2] eqn:Es.
+    apply bind_ok in H; destruct H as [b' [Hb' H]].
+    destruct (expand r2 (Some (bounds_size b')) [] 0) as [vals consumed|e] eqn:Ee.
+    - apply bind_ok in H; destruct H as [[k rest'] [Hk H]]. injection H as <- <-.
+      simpl in Hb. injection Hb as <-. simpl. rewrite map_length.
+      eapply expand_ok_length; eauto.
+    - destruct e; discriminate.
+  Qed.
+
+  (* a plain number of a data card *)
+  Definition plain (t : tok (T:=T)) : Prop :=
+    exists ch, last_char (strip_ws (tsp t)) = Some ch /\
+               Ascii.eqb ch "r" = false /\ Ascii.eqb ch "j" = false /\
+               (Ascii.eqb ch "i" || Ascii.eqb ch "m" || Ascii.eqb ch "g") = false /\
+               float_lit (strip_ws (tsp t)) = true.
+
+  Lemma expand_short_rejected (nums : list (tok (T:=T))) e acc c :
+    Forall plain nums -> (Z.of_nat (List.length acc + List.length nums) < e)%Z ->
+    expand nums (Some e) acc c = XErr EValue.
+  Proof.
+    revert acc c; induction nums as [|t nums IH]; intros acc c Hp Hlt; cbn [expand]; cbv zeta.
+    - unfold xfinish. destruct (Z.eqb_spec (Z.of_nat (List.length acc)) e); [simpl in Hlt; lia|reflexivity].
+    - inversion Hp as [|t' l' [ch [H1 [H2 [H3 [H4 H5]]]]] Hrest]; subst.
+      assert (Hr : reached (Some e) acc = false).
+      { unfold reached. simpl in Hlt. destruct (Z.ltb_spec (Z.of_nat (List.length acc)) e); [reflexivity|lia]. }
+      rewrite Hr, H1, H2, H3, H4, H5.
+      apply IH; [exact Hrest|]. rewrite app_length. simpl in *. lia.
+  Qed.
+
+  Lemma fill_array_short_rejected star trs first rs nums b :
+    has_colon first = true -> forallb has_colon rs = true ->
+    Forall (fun t => has_colon t = false) nums -> Forall plain nums ->
+    parse_ranges (map tsp (first :: rs)) = Ok b ->
+    (Z.of_nat (List.length nums) < bounds_size b)%Z ->
+    parse_fill S star trs (first :: rs ++ nums) = Err EParseCell.
+  Proof.
+    intros Hc Hrs Hnc Hp Hb Hlt. unfold parse_fill. rewrite Hc.
+    assert (Hspan : span has_colon (rs ++ nums) = (rs, nums)).
+    { apply span_app; [exact Hrs|]. destruct nums as [|x nums]; [exact I|]. inversion Hnc; assumption. }
+    rewrite Hspan, Hb. simpl bind.
+    rewrite (expand_short_rejected nums (bounds_size b) [] 0 Hp); [reflexivity|simpl; lia].
+  Qed.
+
+  (* IMP cards of unequal lengths *)
+  Lemma imp_unequal_rejected (cards : list (list (tok (T:=T)))) rows r1 r2 :
+    expand_cards cards = Ok rows -> In r1 rows -> In r2 rows ->
+    List.length r1 <> List.length r2 ->
+    imp_cards_check S cards = Err EParseCell.
+  Proof.
+    intros Hrows H1 H2 Hne. unfold imp_cards_check.
+    destruct cards as [|c0 cards]; [simpl in Hrows; injection Hrows as <-; destruct H1|].
+    rewrite Hrows. simpl bind.
+    destruct rows as [|first others]; [destruct H1|].
+    destruct (forallb (fun r => (List.length r =? List.length first)%nat) others) eqn:E; [|reflexivity].
+    exfalso. rewrite forallb_forall in E.
+    assert (Hall : forall r, In r (first :: others) -> List.length r = List.length first).
+    { intros r [<-|Hr]; [reflexivity|]. apply Nat.eqb_eq. auto. }
+    rewrite (Hall _ H1), (Hall _ H2) in Hne. auto.
+  Qed.
+End Cells.
+
+(* ---------------------------------------------------------------------- *)
+(* 8. Whole runs                                                           *)
+(* ---------------------------------------------------------------------- *)
+Section Runs.
+  Context {T : Type} (S : Scalar T).
+
+  Ltac stages H :=
+    destruct (validate_ok_stages S _ H) as
+      [lat [trs [sm [imps [cells [Hlat [Htrs [Hsurf [Himp [Hcells [Htrcl [Hlatt [Hfill [Hconv Hmats]]]]]]]]]]]]]].
+
+  Lemma not_ok_unit (r : res unit) : r <> Ok tt -> is_ok r = false.
+  Proof. destruct r as [[]|e]; [intros H; exfalso; auto|reflexivity]. Qed.
+
+  Theorem run_tr_card_m_rejected (d : deckm (T:=T)) t :
+    In t (d_trs d) -> List.length (tr_entries t) = 13%nat ->
+    seqb S (last (tr_entries t) (s1 S)) (s1 S) = false ->
+    is_ok (validate S d) = false.
+  Proof.
+    intros Hin Hl Hm. apply not_ok_unit. intros H. stages H.
+    pose proof (stage_trs_all_ok S _ _ _ Htrs t Hin) as Hok.
+    rewrite (norm_tr_len_m_rejected S _ Hl Hm) in Hok. discriminate.
+  Qed.
+
+  Theorem run_unknown_mnemonic_rejected (d : deckm (T:=T)) s :
+    In s (d_surfs d) -> ~ In (sf_mn s) macros -> ~ In (sf_mn s) elementary ->
+    is_ok (validate S d) = false.
+  Proof.
+    intros Hin Hm He. apply not_ok_unit. intros H. stages H.
+    pose proof (stage_surfs_all_ok S _ _ _ _ Hsurf s Hin) as Hok.
+    rewrite (unknown_mnemonic_rejected S _ _ Hm He) in Hok. discriminate.
+  Qed.
+
+  Theorem run_macro_arity_rejected (d : deckm (T:=T)) s :
+    In s (d_surfs d) -> In (sf_mn s) macros ->
+    ~ In (List.length (sf_params s)) (macro_arities (sf_mn s)) ->
+    is_ok (validate S d) = false.
+  Proof.
+    intros Hin Hm Hn. apply not_ok_unit. intros H. stages H.
+    pose proof (stage_surfs_all_ok S _ _ _ _ Hsurf s Hin) as Hok.
+    rewrite (macro_arity_rejected S _ _ Hm Hn) in Hok. discriminate.
+  Qed.
+
+  Theorem run_surface_arity_rejected (d : deckm (T:=T)) s :
+    In s (d_surfs d) -> In (sf_mn s) elementary ->
+    elem_accepts (sf_mn s) (List.length (sf_params s)) = false ->
+    is_ok (validate S d) = false.
+  Proof.
+    intros Hin He Hn. apply not_ok_unit. intros H. stages H.
+    pose proof (stage_surfs_all_ok S _ _ _ _ Hsurf s Hin) as Hok.
+    destruct (sf_params s) as [|x p] eqn:Ep.
+    - rewrite surface_check_unfold in Hok. discriminate.
+    - rewrite <- Ep in *. rewrite surface_arity_exact in Hok; [congruence|exact He|congruence].
+  Qed.
+
+  Theorem run_mixed_fractions_rejected (d : deckm (T:=T)) m l p q :
+    d_skipcomp d = false -> In m (d_mats d) -> mat_pairs m = Ok l ->
+    In p l -> In q l -> frac_negative (snd p) <> frac_negative (snd q) ->
+    is_ok (validate S d) = false.
+  Proof.
+    intros Hs Hin Hl Hp Hq Hne. apply not_ok_unit. intros H. stages H.
+    pose proof (stage_mats_all_ok _ (Hmats Hs) m Hin) as Hok.
+    rewrite (mixed_fractions_card_rejected m l p q Hl Hp Hq Hne) in Hok. discriminate.
+  Qed.
+
+  Theorem run_latopt_malformed_rejected (d : deckm (T:=T)) o :
+    In o (d_latopts d) -> latopt_wf o = false -> is_ok (validate S d) = false.
+  Proof.
+    intros Hin Hwf. apply not_ok_unit. intros H. stages H.
+    pose proof (latopt_malformed_rejected _ o Hin Hwf) as Hbad.
+    rewrite Hlat in Hbad. discriminate.
+  Qed.
+
+  Theorem run_imp_unequal_rejected (d : deckm (T:=T)) rows r1 r2 :
+    expand_cards (d_imps d) = Ok rows -> In r1 rows -> In r2 rows ->
+    List.length r1 <> List.length r2 -> is_ok (validate S d) = false.
+  Proof.
+    intros Hrows H1 H2 Hne. apply not_ok_unit. intros H. stages H.
+    rewrite (imp_unequal_rejected S _ rows r1 r2 Hrows H1 H2 Hne) in Himp. discriminate.
+  Qed.
+End Runs.
+
+(* ---------------------------------------------------------------------- *)
+(* 9. Whole runs, faults sitting on a cell card                            *)
+(* ---------------------------------------------------------------------- *)
+Section CellRuns.
+  Context {T : Type} (S : Scalar T).
+
+  Lemma stage_cells_all_ok trs imps lat rank (l : list (cellc (T:=T))) cells :
+    stage_cells S trs imps lat rank l = Ok cells ->
+    forall c, In c l ->
+    exists r cs, parse_cell S trs imps r (lookup (c_id c) lat) (c_toks c) = Ok cs /\ In (c, cs) cells.
+  Proof.
+    revert rank cells; induction l as [|c0 l IH]; intros rank cells H c Hin; [destruct Hin|].
+    simpl in H. apply bind_ok in H; destruct H as [cs [Hcs H]].
+    apply bind_ok in H; destruct H as [t [Ht H]]. injection H as <-.
+    destruct Hin as [<-|Hin].
+    - exists rank, cs. split; [exact Hcs|left; reflexivity].
+    - destruct (IH _ _ Ht c Hin) as [r [cs' [H1 H2]]]. exists r, cs'. split; [exact H1|right; exact H2].
+  Qed.
+
+  Lemma parse_cell_kw_err trs imps rank lat toks e :
+    parse_kw S (Datatypes.S (List.length toks)) trs toks kws0 = Err e ->
+    is_ok (parse_cell S trs imps rank lat toks) = false.
+  Proof. intros H. unfold parse_cell. rewrite H. reflexivity. Qed.
+
+  Lemma cell_fault_rejected (d : deckm (T:=T)) c :
+    In c (d_cells d) ->
+    (forall trs imps rank lat, parse_lattice (d_latopts d) = Ok lat ->
+       is_ok (parse_cell S trs imps rank (lookup (c_id c) lat) (c_toks c)) = false) ->
+    is_ok (validate S d) = false.
+  Proof.
+    intros Hin Hbad.
+    destruct (validate S d) as [[]|e] eqn:H; [|reflexivity]. exfalso.
+    destruct (validate_ok_stages S _ H) as
+      [lat [trs [sm [imps [cells [Hlat [Htrs [Hsurf [Himp [Hcells _]]]]]]]]]].
+    destruct (stage_cells_all_ok _ _ _ _ _ _ Hcells c Hin) as [r [cs [Hcs _]]].
+    specialize (Hbad trs imps r lat Hlat). rewrite Hcs in Hbad. discriminate.
+  Qed.
+
+  Theorem run_inline_trcl_m_rejected (d : deckm (T:=T)) c e ps rest :
+    In c (d_cells d) -> c_toks c = e :: ps ++ rest ->
+    prefix "imp" (tsp e) = false -> contains_sub "fill" (tsp e) = false ->
+    contains_sub "lat" (tsp e) = false -> contains_sub "trcl" (tsp e) = true ->
+    forallb numeric_lead ps = true -> forallb (fun p => float_lit (tsp p)) ps = true ->
+    stops rest -> List.length ps = 13%nat ->
+    seqb S (last (map tval ps) (s1 S)) (s1 S) = false ->
+    is_ok (validate S d) = false.
+  Proof.
+    intros Hin Htoks H1 H2 H3 H4 Hn Hf Hs Hl Hm.
+    apply (cell_fault_rejected d c Hin). intros trs imps rank lat _.
+    eapply parse_cell_kw_err. rewrite Htoks.
+    apply kw_trcl_m_rejected; assumption.
+  Qed.
+
+  Theorem run_inline_fill_m_rejected (d : deckm (T:=T)) c e u ps rest :
+    In c (d_cells d) -> c_toks c = e :: u :: ps ++ rest ->
+    prefix "imp" (tsp e) = false -> contains_sub "fill" (tsp e) = true ->
+    has_colon u = false -> float_lit (tsp u) = true ->
+    forallb numeric_lead ps = true -> forallb (fun p => float_lit (tsp p)) ps = true ->
+    stops rest -> List.length ps = 13%nat ->
+    seqb S (last (map tval ps) (s1 S)) (s1 S) = false ->
+    is_ok (validate S d) = false.
+  Proof.
+    intros Hin Htoks H1 H2 Hc Hu Hn Hf Hs Hl Hm.
+    apply (cell_fault_rejected d c Hin). intros trs imps rank lat _.
+    eapply parse_cell_kw_err. rewrite Htoks.
+    apply kw_fill_m_rejected; assumption.
+  Qed.
+
+  Theorem run_fill_array_short_rejected (d : deckm (T:=T)) c e first rs nums b :
+    In c (d_cells d) -> c_toks c = e :: first :: rs ++ nums ->
+    prefix "imp" (tsp e) = false -> contains_sub "fill" (tsp e) = true ->
+    has_colon first = true -> forallb has_colon rs = true ->
+    Forall (fun t => has_colon t = false) nums -> Forall (plain (T:=T)) nums ->
+    parse_ranges (map tsp (first :: rs)) = Ok b ->
+    (Z.of_nat (List.length nums) < bounds_size b)%Z ->
+    is_ok (validate S d) = false.
+  Proof.
+    intros Hin Htoks H1 H2 Hc Hrs Hnc Hp Hb Hlt.
+    apply (cell_fault_rejected d c Hin). intros trs imps rank lat _.
+    eapply parse_cell_kw_err. rewrite Htoks.
+    cbn [parse_kw]. cbv zeta. rewrite H1, H2.
+    rewrite (fill_array_short_rejected S _ trs first rs nums b Hc Hrs Hnc Hp Hb Hlt). reflexivity.
+  Qed.
+
+  Theorem run_lattice_no_opt_rejected (d : deckm (T:=T)) c :
+    In c (d_cells d) ->
+    (forall lat, parse_lattice (d_latopts d) = Ok lat -> lookup (c_id c) lat = None) ->
+    (forall trs k, parse_kw S (Datatypes.S (List.length (c_toks c))) trs (c_toks c) kws0 = Ok k ->
+       exists fr z, k_fill k = Some fr /\ f_bounds fr = None /\ k_lat k = Some z) ->
+    is_ok (validate S d) = false.
+  Proof.
+    intros Hin Hno Hk.
+    apply (cell_fault_rejected d c Hin). intros trs imps rank lat Hlat.
+    rewrite (Hno lat Hlat).
+    destruct (parse_kw S (Datatypes.S (List.length (c_toks c))) trs (c_toks c) kws0) as [k|e] eqn:E.
+    - destruct (Hk trs k E) as [fr [z [H1 [H2 H3]]]].
+      eapply parse_cell_no_opt_rejected; eauto.
+    - eapply parse_cell_kw_err; eauto.
+  Qed.
+
+  (* in every run that finishes, the facets of the directly converted cells are
+     at most the number of TRIPOLI-4 pieces of their surface, and those of the
+     cells moved by TRCL lie in 1..number of MCNP pieces *)
+  Theorem run_facets_in_range (d : deckm (T:=T)) :
+    validate S d = Ok tt ->
+    forall lat trs sm imps cells,
+      parse_lattice (d_latopts d) = Ok lat -> stage_trs S (d_trs d) [] = Ok trs ->
+      stage_surfs S trs (d_surfs d) [] = Ok sm -> imp_cards_check S (d_imps d) = Ok imps ->
+      stage_cells S trs imps lat 0 (d_cells d) = Ok cells ->
+      forall c cs l k mn nm nt4,
+        In (c, cs) cells -> In l (c_lits c) -> l_facet l = Some k ->
+        lookup (l_surf l) sm = Some (mn, (nm, nt4)) ->
+        (cs_u cs = 0%Z -> seqb S (cs_imp cs) (s0 S) = false -> cs_lat cs = None ->
+         cs_fill cs = None -> cs_trcl cs = None -> (k <= nt4)%nat) /\
+        (forall n, cs_trcl cs = Some n -> (1 <= k <= nm)%nat).
+  Proof.
+    intros H lat trs sm imps cells E1 E2 E3 E4 E5 c cs l k mn nm nt4 Hin Hl Hk Hlook.
+    destruct (validate_ok_stages S _ H) as
+      [lat' [trs' [sm' [imps' [cells' [Hlat [Htrs [Hsurf [Himp [Hcells [Htrcl [_ [_ [Hconv _]]]]]]]]]]]]]].
+    rewrite E1 in Hlat; injection Hlat as <-. rewrite E2 in Htrs; injection Htrs as <-.
+    rewrite E3 in Hsurf; injection Hsurf as <-. rewrite E4 in Himp; injection Himp as <-.
+    rewrite E5 in Hcells; injection Hcells as <-.
+    split.
+    - intros Hu Hi Hla Hf Ht.
+      destruct (Nat.le_gt_cases k nt4) as [Hle|Hgt]; [exact Hle|exfalso].
+      pose proof (facet_in_converted_cell_rejected S sm cells cells c cs l k mn nm nt4
+                    Hin Hu Hi Hla Hf Ht Hl Hk Hlook Hgt) as Hbad.
+      rewrite Hconv in Hbad. discriminate.
+    - intros n Hn.
+      pose proof (stage_trcl_all_ok sm cells Htrcl c cs n Hin Hn) as H1.
+      destruct (transform_lits_all_ok sm n _ H1 l k Hl Hk) as [mn' [nm' [nt4' [Hl' Hr]]]].
+      rewrite Hlook in Hl'. injection Hl' as <- <- <-. exact Hr.
+  Qed.
+End CellRuns.
